@@ -926,7 +926,7 @@ pub fn enumerate(tier: &str) -> Vec<Case13> {
         v.extend([33, 63, 64, 65, 1022, 1023, 1024, 1025, 1026, 2047, 2048, 2049, 2050, 4096, 8191, 8192, 8193, 70_000, 300_000]);
         v
     } else {
-        vec![0, 1, 2, 13, 64, 1023, 1024, 1025, 2048, 2049]
+        vec![0, 1, 2, 13, 64, 1023, 1024, 1025, 2048, 2049, 70_000, 200_000]
     };
     let base = RespCase {
         family: String::new(),
@@ -1063,7 +1063,7 @@ pub fn enumerate(tier: &str) -> Vec<Case13> {
     let req_lens: Vec<usize> = if thorough {
         vec![0, 1, 2, 3, 13, 64, 65, 1023, 1024, 1025, 2047, 2048, 2049, 2050, 4096, 8192, 70_000, 300_000]
     } else {
-        vec![0, 1, 13, 64, 1023, 1024, 1025, 2048, 2049, 4096]
+        vec![0, 1, 13, 64, 1023, 1024, 1025, 2048, 2049, 4096, 70_000]
     };
     for coding in Coding::ALL {
         for &len in &req_lens {
